@@ -286,6 +286,38 @@ def check_instance_state(ctx, fb, cfg):
     ctx.fixture("R01-7:control[%s]" % cfg, any(re.search(MUTATOR_RX, n) for n in list(seen) + list(ext)), "RLN::set_leaf must reach a tree mutator")
 
 
+def check_external_witness(ctx, fb, cfg):
+    """R01-9: `generate_proof_with_witness` (the entry point for an externally computed witness vector, used by the wasm binding)
+    maps every signed element w to the field element it denotes: p - |w| for a negative w, w otherwise (or, equivalently, a floored /
+    Euclidean remainder by p). A truncated remainder (`%`) keeps negative values negative and the conversion fails or wraps."""
+    it = fb.items.get("rln::protocol::calculate_witness_element")
+    if it is None:
+        raise MissingAnchor("rln::protocol::calculate_witness_element")
+    ctx.touch(it)
+    eng = Engine(fb, inline=lambda i: False)
+    arms = {}
+    single = []
+    for p in eng.run(it):
+        if p.kind != "backedge":
+            continue
+        pushes = [e[3] for e in p.trace if e[0] == "push"]
+        sign = [v for a, v in p.conds() if a[0] == "b" and isinstance(a[1], tuple) and a[1][0] == "eq" and "Sign::Minus" in sh(a[1], 200)]
+        if len(pushes) != 1:
+            continue
+        (arms.__setitem__(sign[0], pushes[0]) if sign else single.append(pushes[0]))
+    ok, why = False, "no per-element conversion found"
+    if set(arms) == {True, False}:
+        neg, pos = sh(arms[True], 600), sh(arms[False], 600)
+        ok = "sub(" in neg and "MODULUS" in neg and "abs(" in neg and "abs(" not in pos and "sub(" not in pos and "to_biguint(" in pos
+        why = "negative elements become %s, the others %s" % (neg[:160], pos[:120])
+    elif len(single) == 1:
+        t = sh(single[0], 600)
+        ok = re.search(r"mod_floor\(|rem_euclid\(", t) is not None and "MODULUS" in t
+        why = "every element becomes %s (a truncated remainder keeps a negative element negative)" % t[:200]
+    ctx.check(ok, "R01-9", "calculate_witness_element[%s]" % cfg, "w < 0 -> p - |w|, else w (or a floored remainder by p), for every element",
+              why, loc(it))
+
+
 def run(ctx):
     cfgs = ["default", "stateless"] if ctx.tier == "quick" else ["default", "stateless", "optimal", "arkzkey"]
     ctx.prefetch(cfgs + ["fixtures"])
@@ -301,6 +333,7 @@ def run(ctx):
         k += check_constructors(ctx, fb, cfg)
         check_generate(ctx, fb, cfg)
         check_instance_state(ctx, fb, cfg)
+        check_external_witness(ctx, fb, cfg)
     # R01-6 (shared with C12 R12-2): the software gates reject nothing the circuit can satisfy: message_id_range_check
     # returns Ok exactly when message_id < user_message_limit (no further condition on the limit or the id)
     from . import c12
